@@ -666,8 +666,8 @@ def rule_gc(ctx, rep, rid):
     # after the cmpxchg control re-loads bucket->next (restart from the bucket)
     bl = [l for l in pat.loads(g, NEXT) if l.d["ap"]["base"] == ["a", 0]]
     pat.require(bl, "gc: load of bucket->next")
-    rep.must_pass(rid, "gc.restart-from-bucket", g, [c.inst], [x for x in pat.loads(g, NEXT) if x not in bl] + [c.inst], lambda i: i in bl,
-                  what="after unlinking (or failing to), the scan restarts from the bucket")
+    rep.must_pass(rid, "gc.restart-from-bucket", g, [c.inst], [x for x in pat.loads(g, NEXT) if x not in bl] + [c.inst] + list(g.rets()), lambda i: i in bl,
+                  what="after unlinking (or failing to), the scan restarts from the bucket - the function returns only from a scan that did not find the node")
     r = fn(ctx, "remove_table_partition")
     rep.touch(r)
     orr = [e.inst for e in pat.accesses(r, NEXT, ("rmw",)) if e.rop == "or" and ir.const_of(r, e.val) == B.REMOVED]
@@ -809,6 +809,45 @@ def rule_bucketat(ctx, rep, rid):
             return out
         allocs = [i for i in af.all_insts() if i.op == "icall" and (lambda e: e[0] == "load" and e[1].endswith("cds_lfht_alloc.calloc"))(ir.expr(af, i.d["fp"]))]
         sl = slot_exprs(bf)
+        # every allocation / mapping is a whole number of bucket nodes: bucket_at strides by sizeof(struct cds_lfht_node)
+        from .. import linear
+        NODE = m.structs["cds_lfht_node"]["size"]
+        ff = m.fn(slots["free_bucket_table"][1])
+        pat.require(ff is not None, "free_bucket_table of %s" % gname)
+        rep.touch(ff)
+        sized = []
+        for a in allocs:
+            cnt, sz = linear.norm(ir.expr(af, a.args[1], 8)), linear.norm(ir.expr(af, a.args[2], 8))
+            tot = None
+            if cnt is not None and sz is not None:
+                if not (set(sz) - {1}):
+                    tot = {t: c * sz.get(1, 0) for t, c in cnt.items()}
+                elif not (set(cnt) - {1}):
+                    tot = {t: c * cnt.get(1, 0) for t, c in sz.items()}
+            sized.append((a, "calloc", tot))
+        lens = {}
+        for g_, role in ((af, "alloc"), (ff, "free")):
+            for c_ in g_.all_insts():
+                if c_.op == "call" and c_.callee in ("memory_map", "memory_populate", "memory_discard", "memory_unmap"):
+                    tot = linear.norm(ir.expr(g_, c_.args[-1], 8))
+                    sized.append((c_, c_.callee, tot))
+                    lens.setdefault(c_.callee, []).append(tot)
+        pat.require(sized, "%s allocator: no sized allocation found" % kind)
+        for a, what, tot in sized:
+            if tot is None:
+                raise Broken("%s allocator: byte size at %s is not linear in the node count" % (kind, a.where()))
+            okn = bool(tot) and all(c % NODE == 0 for c in tot.values())
+            rep.check(okn, rid, "%s.node-sized@%d" % (kind, a.line), "%s size is a whole number of %d-byte bucket nodes (%s)" % (what, NODE, linear.show(tot)),
+                      "%s allocator: %s of %s bytes is not a multiple of sizeof(struct cds_lfht_node) = %d per bucket: bucket_at() strides by the node size and runs past the end "
+                      "of the allocation (heap / mapping overflow once enough buckets are used)" % (kind, what, linear.show(tot), NODE), [a.where()])
+        if kind == "mmap":
+            def _same(x, y):
+                return sorted(map(linear.show, lens.get(x, []))) == sorted(map(linear.show, lens.get(y, [])))
+            rep.check(_same("memory_map", "memory_unmap"), rid, "mmap.map=unmap", "the whole reservation is unmapped with the length it was mapped with", "mmap allocator: reserved %s bytes, unmaps %s" %
+                      ([linear.show(x) for x in lens.get("memory_map", [])], [linear.show(x) for x in lens.get("memory_unmap", [])]), [ff.name])
+            lv_p = [x for x in lens.get("memory_populate", []) if any(isinstance(t, tuple) and t[0] == "t" for t in x)]
+            rep.check(sorted(map(linear.show, lv_p)) == sorted(map(linear.show, lens.get("memory_discard", []))), rid, "mmap.populate=discard", "a level is discarded with the length it was populated with",
+                      "mmap allocator: a level is populated with %s bytes and discarded with %s" % ([linear.show(x) for x in lv_p], [linear.show(x) for x in lens.get("memory_discard", [])]), [ff.name])
         if kind == "order":
             lvl = [a for a in allocs if any(x[0] in ("ugt", "ne") and x[1] == ("arg", 1) for x in pat.dom_leaf_atoms(af, a)) and ir.expr(af, a.args[1], 6)[0] != "load"]
             l0 = [a for a in allocs if ir.expr(af, a.args[1], 6) == ("load", "arg0.cds_lfht.min_nr_alloc_buckets", "na", ir.expr(af, a.args[1], 6)[3]) or ir.expr_str(ir.expr(af, a.args[1], 6)) == "ld(arg0.cds_lfht.min_nr_alloc_buckets)"]
